@@ -130,21 +130,29 @@ def names():
 ALLNAMES = names()
 
 
+TYPED = {"on": False}  # set per case: the shared tree is a TypedTree whose kinds change with the version
+
+
 def build_tree(ver):
     from nutree import Tree
+    from nutree.typed_tree import TypedTree
 
-    t = Tree("shared")
+    t = (TypedTree if TYPED["on"] else Tree)("shared")
     fill(t, ver)
     return t
+
+
+def _kw(ver):
+    return {"kind": f"kind{ver}"} if TYPED["on"] else {}
 
 
 def fill(t, ver, only_group=None, before=None):
     for g in range(G):
         if only_group is not None and g != only_group:
             continue
-        top = t.add(f"g{g}@v{ver}", data_id=f"g{g}", before=before)
+        top = t.add(f"g{g}@v{ver}", data_id=f"g{g}", before=before, **_kw(ver))
         for c in range(C):
-            top.add(f"g{g}c{c}@v{ver}", data_id=f"g{g}c{c}")
+            top.add(f"g{g}c{c}@v{ver}", data_id=f"g{g}c{c}", **_kw(ver))
 
 
 def writer_steps(t, style, ver):
@@ -280,7 +288,7 @@ def run_op(op, t, tmpdir, hook=None):
         r = t.filtered(pred) if op == "filtered" else t.copy(predicate=pred)
         return [n.data for n in r]
     if op == "copy_to":
-        dst = Tree("dst")
+        dst = type(t)("dst")
         t.copy_to(dst)
         return [n.data for n in dst]
     if op == "to_dict_list":
@@ -652,6 +660,7 @@ def stress(case, res):
 
 
 def run_case(case, res):
+    TYPED["on"] = bool(case.get("typed"))
     k = case["kind"]
     if k == "A":
         m = len(writer_steps(build_tree(0), case["style"], 0))
@@ -687,7 +696,12 @@ def all_points(tier):
                 pts.append({"kind": "B", "op": op, "style": style, "k": k})
     for nest in (1, 2, 3):
         pts.append({"kind": "C", "nest": nest})
-    return pts
+    # the same schedule points on a TypedTree whose kinds change from version to version (rebuild/mixed styles)
+    typed_pts = []
+    for pt in pts:
+        if pt["kind"] == "C" or (pt.get("style") in ("rebuild", "mixed") and (tier != "quick" or pt.get("phase", 1) in (1, 2) or pt["kind"] == "B")):
+            typed_pts.append({**pt, "typed": True})
+    return pts + typed_pts
 
 
 def shards(tier, seed):
@@ -710,7 +724,7 @@ def run_shard(spec, res):
     else:
         rng = rng_for(spec["seed"], "c18-stress", spec["i"])
         run_case({"kind": "S", "seed": rng.randrange(10**6), "writers": rng.randint(2, 4), "readers": rng.randint(4, 8),
-                  "iters": spec["iters"], "yield_p": rng.choice([0.0, 0.01, 0.03])}, res)
+                  "iters": spec["iters"], "yield_p": rng.choice([0.0, 0.01, 0.03]), "typed": spec["i"] % 2 == 1}, res)
 
 
 def summarize(total):
